@@ -1148,6 +1148,10 @@ var _ = wire.RegisterInterface(
 
 // TODO: check for unnecessary extra bytes at the end.
 func DecodeMessage(bz []byte) (msgType byte, msg ConsensusMessage, err error) {
+	if len(bz) == 0 {
+		err = errors.New("DecodeMessage: empty message")
+		return
+	}
 	msgType = bz[0]
 	n := new(int)
 	r := bytes.NewReader(bz)
